@@ -298,7 +298,7 @@ def c15_d(ctx: Ctx):
             out.append(ctx.viol(R, sj, sj.node, f"sync_jobs accepts '{p}' but never reads it", construct=k))
         elif p in sjw.params and p not in ("src", "dst"):
             dn = common.derived_names(sj, p)
-            okc = jw_calls and all(any(kw.arg == p and (dn & names_in(kw.value)) for kw in c.keywords) for c in jw_calls)
+            okc = jw_calls and all(common.arg_for_param(sjw, c, p) is not None and (dn & names_in(common.arg_for_param(sjw, c, p))) for c in jw_calls)
             if okc:
                 out.append(ctx.ok(R, sj, jw_calls[0], f"option '{p}' is passed to the file walk", construct=k))
             else:
@@ -310,7 +310,8 @@ def c15_d(ctx: Ctx):
             if p == "subdir":
                 continue
             k = f"{SJW}|rec:{p}"
-            if any(kw.arg == p and p in names_in(kw.value) for kw in c.keywords):
+            av = common.arg_for_param(sjw, c, p)
+            if av is not None and p in names_in(av):
                 out.append(ctx.ok(R, sjw, c, f"recursion passes '{p}' down", construct=k))
             else:
                 out.append(ctx.viol(R, sjw, c, f"the recursive call of _sync_job_workspaces drops '{p}': sub-directories are synchronised with the default", construct=k))
@@ -618,9 +619,9 @@ def c15_i(ctx: Ctx):
         for path, facts in paths:
             total += 1
             facts = common.expand_facts(ctx, f, facts)
-            if (vp, True) in facts:
+            if common.entails(facts, vp, True):
                 continue
-            if any((not pol) and t.replace(" ", "") in ("os.path.isdir(self.path)", "os.path.exists(self.path)", "os.path.lexists(self.path)") for (t, pol) in facts):
+            if any(common.entails(facts, probe, False) for probe in ("os.path.isdir(self.path)", "os.path.exists(self.path)", "os.path.lexists(self.path)")):
                 continue
             bad = (w, path)
     if bad:
